@@ -212,6 +212,9 @@ func TestC36(t *testing.T) {
 					r.Capped("internal budget reached")
 					goto done
 				}
+				if !mc.Thorough() && ring.name == "k1+key-without-chain" && len(set) > 1 {
+					continue // quick: the ring with an extra chain-less key only with chain sets of size <= 1
+				}
 				nCase++
 				chains := append([]*c36Chain{}, set...)
 				if ring.k2 != nil {
